@@ -117,6 +117,21 @@ theorem C06_snapshot_frame (c : Cfg) (eng : Nat → Nat → Nat) (s : LState) (t
     (s'.th t).prog = p :=
   C06P.snapshot_frame c eng s t p hp hpend hf
 
+/-- no shared machine field is written outside the lock window: a step of thread `t` that changes the
+shared machine state (`mstate` stands for everything the engine keeps machine-wide: model states, the
+state / event tables, and for hierarchical machines the current scope `_stack / scoped / states / events /
+prefix_path`), the context map or `IdentManager.current` is taken while `t` owns the machine lock.
+In particular every step a thread takes BEFORE it has acquired the lock (`callBegin`, the read of
+`current`, entering user contexts that precede the lock, a blocked attempt) leaves all of them
+unchanged. -/
+theorem C06_shared_writes_in_window (c : Cfg) (L : Nat) (hwf : WF c L) (eng : Nat → Nat → Nat)
+    (progs : Nat → List Op) (hp : ProgOK progs) (ms : Nat) (σ : List Nat) (t : Nat) :
+    let s := runSched c eng (init c progs ms) σ
+    let s' := step c eng s t
+    s'.ung = false →
+    (s'.mstate ≠ s.mstate ∨ s'.cmap ≠ s.cmap ∨ s'.current ≠ s.current) → s.owner L = t + 1 :=
+  C06P.shared_writes c L hwf eng progs hp ms σ t
+
 /-! non-vacuity -/
 
 /-- a snapshot in the middle of an event, followed by a re-entrant call: nothing is entered again -/
